@@ -241,6 +241,15 @@ func (b *Buffer) Read(packet []byte) (n int, err error) { //nolint:gocognit,cycl
 			}
 
 			b.count--
+			if b.count > 0 && !b.closed {
+				// More packets remain: pass the wake-up token on, since the
+				// single token may have been posted for several writes while
+				// more than one reader was about to wait.
+				select {
+				case b.notify <- struct{}{}:
+				default:
+				}
+			}
 			b.mutex.Unlock()
 
 			if copied < count {
